@@ -22,6 +22,25 @@ theorem clock_fields_bits (c : ClockTS) : ((c.fields.map (·.1)).sum) = c.nrBits
 theorem sei_framing (msgs : List Msg) (hne : msgs ≠ []) (hok : ∀ m ∈ msgs, MsgOK m) :
     extractSEI (writeSEI msgs) = (msgs, none) := Sei.sei_framing msgs hne hok
 
+/-- **SEI NAL unit round trip** (`avc.ParseSEINalu`, `hevc.ParseSEINalu`): a NAL unit made of an SEI NAL header
+    (AVC: one byte of type 6; HEVC: two bytes, type 39 or 40) and the written message list parses back to that list:
+    every message once, in order, with its own type and payload -/
+theorem sei_nalu_roundtrip (c : Codec) (hdr : Bytes) (msgs : List Msg) (hne : msgs ≠ []) (hok : ∀ m ∈ msgs, MsgOK m)
+    (hl : hdr.length = c.hdrLen) (hsei : isSEINalu c hdr = true) :
+    parseSEINalu c (hdr ++ writeSEI msgs) = some (msgs, none) := by
+  have hfr := Sei.sei_framing msgs hne hok
+  cases c with
+  | avc =>
+    match hdr, hl, hsei with
+    | [h0], _, hsei =>
+      have h : isSEINalu .avc (h0 :: writeSEI msgs) = true := by simpa [isSEINalu] using hsei
+      simp [parseSEINalu, h, Codec.hdrLen, hfr]
+  | hevc =>
+    match hdr, hl, hsei with
+    | [h0, h1], _, hsei =>
+      have h : isSEINalu .hevc (h0 :: h1 :: writeSEI msgs) = true := by simpa [isSEINalu] using hsei
+      simp [parseSEINalu, h, Codec.hdrLen, hfr]
+
 /-- what is written is the escaped form of type/size/payload bytes followed by the 0x80 trailing byte -/
 theorem writeSEI_shape (msgs : List Msg) (hok : ∀ m ∈ msgs, MsgOK m) :
     writeSEI msgs = esc 0 (msgsBytes msgs ++ [0x80]) := Sei.writeSEI_eq msgs (fun m hm => (hok m hm).2.2)
@@ -51,5 +70,7 @@ example : (⟨17, 300, 0, 0, 59, true, false, false, true, false, false, true, f
   simp [ClockTS.Canon]
 
 example : MsgOK ⟨70000, [0, 0, 1, 0, 0]⟩ := by simp [MsgOK, IsBytes]
+example : isSEINalu .avc [0x66] = true := by decide
+example : isSEINalu .hevc [0x50, 0x01] = true := by decide
 
 end Mp4ff.Sei.C17
